@@ -1034,7 +1034,33 @@ pub fn t_gen(p: P, idx: u64) -> impl Fn() {
                 let a = if last { amount("gw", d, false, 2) } else { Uint128::new(g.pick(&[1u128, 2, 10]) * d) };
                 Op::Withdraw { who, amount: a }
             } else if k < 82 {
-                Op::Liquidate { by: g.pick(&[LIQ, EVE]), trader: who, limit: Uint128::zero() }
+                // (half of the attempts target the trader with the lowest margin ratio, so that
+                // liquidations that actually go through are not rare)
+                let mut target = who;
+                if g2.chance(50) {
+                    let mut worst: Option<(bool, u128)> = None; // (negative, magnitude) ordered: most negative first
+                    for t in traders.iter() {
+                        if let Ok(mr) = r.w.margin_ratio(vi, t) {
+                            if let symrt::SymU128::C(v) = crate::sx::x(mr.value) {
+                                let key = (mr.negative, v);
+                                let lower = match worst {
+                                    None => true,
+                                    Some((wn, wv)) => match (key.0, wn) {
+                                        (true, false) => true,
+                                        (false, true) => false,
+                                        (true, true) => v > wv,
+                                        (false, false) => v < wv,
+                                    },
+                                };
+                                if lower {
+                                    worst = Some(key);
+                                    target = t;
+                                }
+                            }
+                        }
+                    }
+                }
+                Op::Liquidate { by: g.pick(&[LIQ, EVE]), trader: target, limit: Uint128::zero() }
             } else if k < 94 {
                 // a funding settlement: a day passes, the oracle moves
                 r.w.next_block(86_400);
@@ -1056,6 +1082,46 @@ pub fn t_gen(p: P, idx: u64) -> impl Fn() {
             r.step(op);
             if g.chance(75) {
                 r.w.next_block(g.pick(&[15u64, 15, 900, 1000]));
+            }
+            // owner / pauser actions interleaved with the traders' (second generator): fees, band,
+            // partial ratio, liquidation fee, pause and unpause, whitelist
+            if !last && g2.chance(22) {
+                let was_full = symrt::is_full();
+                symrt::set_full(false);
+                let ev = g2.next() % 7;
+                let name = match ev {
+                    0 => {
+                        let (t, sp) = g2.pick(&[(0u128, 0u128), (d / 200, d / 50), (d / 50, 0), (0, d / 100)]);
+                        r.w.update_vamm(vi, None, None, Some(Uint128::new(t)), Some(Uint128::new(sp)), None, None);
+                        "fees"
+                    }
+                    1 => {
+                        r.w.update_vamm(vi, None, None, None, None, Some(Uint128::new(g2.pick(&[0u128, d / 50, d / 10]))), None);
+                        "band"
+                    }
+                    2 => {
+                        r.w.update_engine(None, None, Some(Uint128::new(g2.pick(&[0u128, d / 4, d]))), None);
+                        "partial-ratio"
+                    }
+                    3 => {
+                        r.w.update_engine(None, None, None, Some(Uint128::new(g2.pick(&[0u128, d / 100, d / 20]))));
+                        "liq-fee"
+                    }
+                    4 => {
+                        r.w.engine_exec(OWNER, &margined_perp::margined_engine::ExecuteMsg::SetPause { pause: true });
+                        "pause"
+                    }
+                    5 => {
+                        r.w.engine_exec(OWNER, &margined_perp::margined_engine::ExecuteMsg::SetPause { pause: false });
+                        "unpause"
+                    }
+                    _ => {
+                        r.w.engine_exec(OWNER, &margined_perp::margined_engine::ExecuteMsg::AddWhitelist { address: BOB.into() });
+                        "whitelist"
+                    }
+                };
+                desc += &format!("[{}] ", name);
+                symrt::set_full(was_full);
             }
         }
         r.vi = 0;
